@@ -52,8 +52,15 @@ def rule_nz(R):
     rets = []
     for alt in phi_alts(alloc.local_term(0)):
         rets.append(alt)
-    ok = bool(rets) and all(is_call(peel(a), "NonZero::<T>::get", "NonZero::<u16>::get", "get") and
-                            chain(peel(a)[3][0])[1] == ["packet_id"] for a in rets)
+    def is_nz(t, depth=0):
+        t = peel(t)
+        if is_call(t, "NonZero::<T>::get", "NonZero::<u16>::get") and chain(t[3][0])[1] == ["packet_id"]:
+            return True
+        if t[0] == "call" and t[2] in f.bodies and depth < 3:
+            hb = f.bodies[t[2]]
+            return all(is_nz(a, depth + 1) for a in phi_alts(hb.local_term(0)))
+        return False
+    ok = bool(rets) and all(is_nz(a) for a in rets)
     R.ob("nz/returns-nonzero", ok,
          "the allocator returns NonZeroU16::get of the session's counter (found %s)" % show(alloc.local_term(0)), where=alloc.span)
     fld = None
